@@ -2,7 +2,11 @@ package checks
 
 import (
 	"fmt"
+	"go/constant"
 	"go/token"
+	"go/types"
+	"regexp"
+	"strings"
 
 	"fv/internal/core"
 
@@ -214,4 +218,659 @@ func multipleTested(fn *ssa.Function, src ssa.Value, b *ssa.BasicBlock) bool {
 		}
 	}
 	return false
+}
+
+// checkBackendDeclNil (sim.backendnil): a value.Backend wraps either a backend declaration (Value) or a director
+// (Director); for a director, and for a BACKEND local that was never assigned, Value is nil. req.backend can be set
+// to such a value in any scope, also after the backend request was created. Every dereference of X.Value (field access
+// or method call on the loaded *ast.BackendDeclaration) is dominated by a non-nil test of that same X.Value.
+func checkBackendDeclNil(c *core.Ctx, funcs []*ssa.Function) {
+	n := 0
+	isBackendValueLoad := func(v ssa.Value) (string, bool) {
+		ld, ok := v.(*ssa.UnOp)
+		if !ok || ld.Op != token.MUL {
+			return "", false
+		}
+		fa, ok := ld.X.(*ssa.FieldAddr)
+		if !ok {
+			return "", false
+		}
+		f := core.FieldOf(fa)
+		if f == nil || f.Name() != "Value" || core.NamedTypeName(derefType(fa.X.Type())) != "Backend" || !strings.HasSuffix(core.FieldOwner(fa), "/value.Backend") {
+			return "", false
+		}
+		return accessPath(ld), true
+	}
+	nonNilTested := func(fn *ssa.Function, path string, b *ssa.BasicBlock) bool {
+		for _, blk := range fn.Blocks {
+			iff, ok := blk.Instrs[len(blk.Instrs)-1].(*ssa.If)
+			if !ok {
+				continue
+			}
+			bo, ok := iff.Cond.(*ssa.BinOp)
+			if !ok || (bo.Op != token.EQL && bo.Op != token.NEQ) {
+				continue
+			}
+			tested := bo.X
+			if core.IsNilConst(bo.X) {
+				tested = bo.Y
+			} else if !core.IsNilConst(bo.Y) {
+				continue
+			}
+			if p, ok := isBackendValueLoad(tested); !ok || p != path {
+				continue
+			}
+			idx := 1 // == nil: the false edge is the non-nil one
+			if bo.Op == token.NEQ {
+				idx = 0
+			}
+			if core.EdgeDominates(blk, idx, b) {
+				return true
+			}
+		}
+		return false
+	}
+	// callersTest: the dereferenced backend is a parameter of an unexported function and every static call site passes an
+	// argument whose .Value is tested non-nil on every path to the call
+	callersTest := func(fn *ssa.Function, valueLoad ssa.Value) bool {
+		ld := valueLoad.(*ssa.UnOp)
+		par, ok := ld.X.(*ssa.FieldAddr).X.(*ssa.Parameter)
+		if !ok || token.IsExported(fn.Name()) {
+			return false
+		}
+		idx := -1
+		for i, q := range fn.Params {
+			if q == par {
+				idx = i
+			}
+		}
+		sites := 0
+		for _, g := range funcs {
+			for _, gb := range g.Blocks {
+				for _, gin := range gb.Instrs {
+					if core.StaticCallee(gin) != fn {
+						continue
+					}
+					sites++
+					arg := gin.(ssa.CallInstruction).Common().Args[idx]
+					if !nonNilTested(g, "*"+accessPath(arg)+".Value", gb) {
+						return false
+					}
+				}
+			}
+		}
+		return sites > 0
+	}
+	for _, fn := range funcs {
+		perFn := map[string]int{}
+		for _, b := range fn.Blocks {
+			for _, in := range b.Instrs {
+				var base ssa.Value
+				switch t := in.(type) {
+				case *ssa.FieldAddr:
+					base = t.X
+				case *ssa.Field:
+					base = t.X
+				case ssa.CallInstruction:
+					if cal := t.Common().StaticCallee(); cal != nil && cal.Signature.Recv() != nil && len(t.Common().Args) > 0 {
+						base = t.Common().Args[0]
+					}
+				}
+				if base == nil {
+					continue
+				}
+				path, ok := isBackendValueLoad(base)
+				if !ok {
+					continue
+				}
+				n++
+				label := describeOperand(base)
+				perFn[label]++
+				key := fmt.Sprintf("%s|%s#%d", core.FnName(fn), label, perFn[label])
+				if nonNilTested(fn, path, b) {
+					c.Discharge("sim.backendnil", key, in.Pos(), "dominated by a non-nil test of the same backend declaration")
+				} else if callersTest(fn, base) {
+					c.Discharge("sim.backendnil", key, in.Pos(), "the backend is a parameter and every call site is dominated by a non-nil test of the argument's declaration")
+				} else {
+					c.Report("sim.backendnil", key, in.Pos(), fmt.Sprintf("%s dereferences the backend declaration of %s without a dominating non-nil test: a value.Backend that wraps a director, or a BACKEND local that was never assigned, has no declaration - `set req.backend = <director>` or an unset local makes the simulator panic here", core.FnName(fn), label))
+				}
+			}
+		}
+	}
+	c.Floor("sim.backendnil", 10)
+}
+
+// checkConstIndex (sim.constidx): x[k] and x[a:b] with constant k, a, b on a slice or string of run-time length panic
+// when x is shorter. Outside the built-ins' args[k] (decided by sim.args) every such site has a length that is known
+// by construction (make / literal / Split / a successful Peek(n)) or is dominated by a length test.
+// constIndexExceptions: sites whose length follows from an invariant no length test expresses, reviewed by reading,
+// keyed by function and indexed operand.
+var constIndexExceptions = map[string]string{
+	"toSeriesExpression|toSeriesExpression()#0[0]":                 "toSeriesExpression returns, with a nil error, a list that holds at least the series of the expression it was given (every non-error return appends or forwards one)",
+	"ProcessStringConcatInfixExpression|toSeriesExpression()#0[0]": "as above: a successful toSeriesExpression is never empty",
+	"Strftime|string[0]":               "time.Format(\"-0700\") always yields a sign and four digits",
+	"Strftime|stringslice":             "time.Format(\"-0700\") always yields a sign and four digits",
+	"header_filter_delete|[]string[1]": "reached without the colon only after h.Del removed every value of the header, so the loop that reads spl[1] is not entered",
+	"Get|QueryString.Value[0]":         "QueryString.Value is nil or a one-element literal (the two constructors in this file)",
+	"GetField|[]string[1]":             "the pattern built by compilePattern has exactly one group, and an empty match list is excluded just before",
+}
+
+func checkConstIndex(c *core.Ctx, funcs []*ssa.Function) {
+	n := 0
+	for _, fn := range funcs {
+		perFn := map[string]int{}
+		for _, b := range fn.Blocks {
+			for _, in := range b.Instrs {
+				var base ssa.Value
+				need := int64(0)
+				what := ""
+				switch t := in.(type) {
+				case *ssa.Slice:
+					lo, hasLo := int64(0), false
+					hi, hasHi := int64(0), false
+					if t.Low != nil {
+						lo, hasLo = core.ConstIntValue(t.Low)
+					}
+					if t.High != nil {
+						hi, hasHi = core.ConstIntValue(t.High)
+					}
+					if (hasLo && lo > 0) || (hasHi && hi > 0) {
+						base, need = t.X, lo
+						if hi > need {
+							need = hi
+						}
+						what = "slice"
+					}
+				case *ssa.IndexAddr:
+					if k, ok := core.ConstIntValue(t.Index); ok {
+						base, need, what = t.X, k+1, fmt.Sprintf("[%d]", k)
+					}
+				case *ssa.Index:
+					if k, ok := core.ConstIntValue(t.Index); ok {
+						base, need, what = t.X, k+1, fmt.Sprintf("[%d]", k)
+					}
+				}
+				if base == nil {
+					continue
+				}
+				// arrays and pointers to arrays have a static length
+				bt := base.Type().Underlying()
+				if p, ok := bt.(*types.Pointer); ok {
+					bt = p.Elem().Underlying()
+				}
+				if arr, ok := bt.(*types.Array); ok {
+					if arr.Len() >= need {
+						continue
+					}
+				}
+				// args[k] of a built-in: sim.args
+				if root, _ := chainOf(base); root != nil {
+					if p, ok := root.(*ssa.Parameter); ok && p.Name() == "args" {
+						continue
+					}
+				}
+				n++
+				label := stableLabel(base) + what
+				perFn[label]++
+				key := fmt.Sprintf("%s|%s#%d", core.FnName(fn), label, perFn[label])
+				if why := constLenKnown(fn, base, b, need); why != "" {
+					c.Discharge("sim.constidx", key, in.Pos(), why)
+				} else if why := constIndexExceptions[fn.Name()+"|"+label]; why != "" {
+					c.Discharge("sim.constidx", key, in.Pos(), "named exception: "+why)
+				} else {
+					c.Report("sim.constidx", key, in.Pos(), fmt.Sprintf("%s indexes or slices %s with the constant bound %d and nothing on the paths to this point shows that it is that long (no dominating length test, no length known by construction): a shorter value makes the simulator panic (index out of range)", core.FnName(fn), stableLabel(base), need))
+				}
+			}
+		}
+	}
+	c.Floor("sim.constidx", 20)
+}
+
+// constLenKnown: a reason why len(base) >= need at block b, or "".
+func constLenKnown(fn *ssa.Function, base ssa.Value, b *ssa.BasicBlock, need int64) string {
+	if lenLowerBound(fn, base, b) >= need {
+		return "dominated by a length test"
+	}
+	// strings.HasPrefix / HasSuffix(x, "const") on the true edge: x is at least that long; Contains(x, "c"): non-empty
+	if base.Referrers() != nil {
+		for _, r := range *base.Referrers() {
+			call, ok := r.(*ssa.Call)
+			if !ok || call.Referrers() == nil {
+				continue
+			}
+			cal := call.Common().StaticCallee()
+			if cal == nil || cal.Pkg == nil || (cal.Pkg.Pkg.Path() != "strings" && cal.Pkg.Pkg.Path() != "bytes") || len(call.Common().Args) != 2 || call.Common().Args[0] != base {
+				continue
+			}
+			k, isK := call.Common().Args[1].(*ssa.Const)
+			if !isK || k.Value == nil || k.Value.Kind() != constant.String {
+				continue
+			}
+			have := int64(0)
+			switch cal.Name() {
+			case "HasPrefix", "HasSuffix":
+				have = int64(len(constant.StringVal(k.Value)))
+			case "Contains":
+				have = int64(len(constant.StringVal(k.Value)))
+			}
+			if have < need {
+				continue
+			}
+			for _, rr := range *call.Referrers() {
+				if iff, ok := rr.(*ssa.If); ok && core.EdgeDominates(iff.Block(), 0, b) {
+					return "dominated by strings." + cal.Name() + " with a constant of that length"
+				}
+			}
+		}
+	}
+	// strings.SplitN(_, _, 2): one or two elements; a dominating `len(x) == 1` false edge / `!= 1` true edge leaves two
+	if call, ok := base.(*ssa.Call); ok && need == 2 {
+		if cal := call.Common().StaticCallee(); cal != nil && cal.Pkg != nil && cal.Pkg.Pkg.Path() == "strings" && cal.Name() == "SplitN" {
+			if k, ok := core.ConstIntValue(call.Common().Args[2]); ok && k == 2 && lenExcludes(fn, base, b, 1) {
+				return "SplitN(_, _, 2) returns one or two elements and one is excluded by a dominating test"
+			}
+		}
+	}
+	// an element of the result of Find*All*Index: every match has at least the two bounds of the whole match
+	if ld, ok := base.(*ssa.UnOp); ok && ld.Op == token.MUL && need <= 2 {
+		if ia, ok := ld.X.(*ssa.IndexAddr); ok {
+			if call, ok := ia.X.(*ssa.Call); ok {
+				if cal := call.Common().StaticCallee(); cal != nil && strings.HasPrefix(cal.Name(), "FindAll") && strings.HasSuffix(cal.Name(), "Index") {
+					return "an element of (*Regexp)." + cal.Name() + ": the bounds of one match"
+				}
+			}
+		}
+	}
+	// strings.Split / SplitN(x, sep, n >= 2) behind a dominating strings.Contains(x, sep): at least two elements
+	if call, ok := base.(*ssa.Call); ok && need <= 2 {
+		if cal := call.Common().StaticCallee(); cal != nil && cal.Pkg != nil && cal.Pkg.Pkg.Path() == "strings" && (cal.Name() == "SplitN" || cal.Name() == "Split") {
+			okN := cal.Name() == "Split"
+			if !okN {
+				if k, isK := core.ConstIntValue(call.Common().Args[2]); isK && (k >= 2 || k < 0) {
+					okN = true
+				}
+			}
+			x, sep := call.Common().Args[0], call.Common().Args[1]
+			if okN && x.Referrers() != nil {
+				for _, r := range *x.Referrers() {
+					cc, ok := r.(*ssa.Call)
+					if !ok || cc.Referrers() == nil {
+						continue
+					}
+					if c2 := cc.Common().StaticCallee(); c2 == nil || c2.Pkg == nil || c2.Pkg.Pkg.Path() != "strings" || c2.Name() != "Contains" || cc.Common().Args[0] != x {
+						continue
+					}
+					k1, ok1 := cc.Common().Args[1].(*ssa.Const)
+					k2, ok2 := sep.(*ssa.Const)
+					if !ok1 || !ok2 || k1.Value == nil || k2.Value == nil || k1.Value.ExactString() != k2.Value.ExactString() {
+						continue
+					}
+					for _, rr := range *cc.Referrers() {
+						if iff, ok := rr.(*ssa.If); ok && core.EdgeDominates(iff.Block(), 0, b) {
+							return "Split on a separator that a dominating strings.Contains found: at least two elements"
+						}
+					}
+				}
+			}
+		}
+	}
+	// make([]T, len(x)+k) / reslicing of a slice of known length
+	if n := knownLen(base, 0); n >= need {
+		return fmt.Sprintf("length known by construction (%d)", n)
+	}
+	// a parameter of an unexported function: every static call site passes a value of known length
+	if par, ok := base.(*ssa.Parameter); ok && !token.IsExported(fn.Name()) && fn.Prog != nil {
+		idx := -1
+		for i, q := range fn.Params {
+			if q == par {
+				idx = i
+			}
+		}
+		sites, all := 0, true
+		for _, g := range ssaFuncsOfPkg(fn) {
+			for _, gb := range g.Blocks {
+				for _, gin := range gb.Instrs {
+					if core.StaticCallee(gin) != fn {
+						continue
+					}
+					sites++
+					if constLenKnown(g, gin.(ssa.CallInstruction).Common().Args[idx], gb, need) == "" {
+						all = false
+					}
+				}
+			}
+		}
+		if sites > 0 && all {
+			return "parameter: every call site passes a value of known length"
+		}
+	}
+	// the result of a module function that returns a literal of that many elements whenever its error is nil
+	if ex, ok := base.(*ssa.Extract); ok && ex.Index == 0 {
+		if call, ok := ex.Tuple.(*ssa.Call); ok {
+			if f := call.Common().StaticCallee(); f != nil && f.Blocks != nil {
+				under := false
+				for _, e := range core.ErrorResults(call) {
+					if core.DominatedByNil(e, b, true) {
+						under = true
+					}
+				}
+				sites, all := 0, under
+				for _, rs := range core.ReturnSites(f) {
+					if len(rs.Results) != 2 || !core.IsNilConst(rs.Results[1]) {
+						continue
+					}
+					sites++
+					if knownLen(rs.Results[0], 0) < need {
+						all = false
+					}
+				}
+				if sites > 0 && all {
+					return "callee returns a literal of that length whenever its error is nil"
+				}
+			}
+		}
+	}
+	// a package-level slice initialised with a literal of that many elements and never assigned elsewhere
+	if ld, ok := base.(*ssa.UnOp); ok && ld.Op == token.MUL {
+		if g, ok := ld.X.(*ssa.Global); ok {
+			if n := globalLiteralLen(g); n >= need {
+				return fmt.Sprintf("package variable initialised with %d elements", n)
+			}
+		}
+	}
+	v := base
+	for {
+		switch t := v.(type) {
+		case *ssa.Convert:
+			v = t.X
+			continue
+		case *ssa.ChangeType:
+			v = t.X
+			continue
+		}
+		break
+	}
+	if k, ok := v.(*ssa.Const); ok && k.Value != nil && k.Value.Kind() == constant.String && int64(len(constant.StringVal(k.Value))) >= need {
+		return "constant string"
+	}
+	switch t := v.(type) {
+	case *ssa.MakeSlice:
+		if k, ok := core.ConstIntValue(t.Len); ok && k >= need {
+			return "made with a constant length"
+		}
+	case *ssa.Slice:
+		// x[:k] of something: length k when it did not panic
+		if t.High != nil {
+			if k, ok := core.ConstIntValue(t.High); ok {
+				lo := int64(0)
+				if t.Low != nil {
+					lo, _ = core.ConstIntValue(t.Low)
+				}
+				if k-lo >= need {
+					return "a slice expression of constant length"
+				}
+			}
+		}
+		if al, ok := t.X.(*ssa.Alloc); ok {
+			if arr, ok := al.Type().(*types.Pointer).Elem().Underlying().(*types.Array); ok && arr.Len() >= need && t.High == nil && t.Low == nil {
+				return "slice of a fixed-size array"
+			}
+		}
+	case *ssa.Call:
+		if cal := t.Common().StaticCallee(); cal != nil && cal.Pkg != nil {
+			switch cal.Pkg.Pkg.Path() + "." + cal.Name() {
+			case "strings.Split", "strings.SplitN", "bytes.Split", "bytes.SplitN", "strings.SplitAfter", "strings.SplitAfterN":
+				if need <= 1 {
+					// Split returns at least one element unless n == 0 / sep and s are both empty
+					if len(t.Common().Args) < 3 {
+						return "strings.Split returns at least one element"
+					}
+					if k, ok := core.ConstIntValue(t.Common().Args[2]); ok && k != 0 {
+						return "strings.SplitN with n != 0 returns at least one element"
+					}
+				}
+			case "crypto/sha256.Sum256", "crypto/sha1.Sum", "crypto/md5.Sum":
+				return "fixed-size digest"
+			}
+		}
+	}
+	// regexp (and pcre) match results: a non-nil result of Find*Submatch* has 1+groups elements (twice that for the Index
+	// forms), Find*Index has 2; the group count comes from the compiled pattern when the expression is a package variable
+	if call, ok := v.(*ssa.Call); ok {
+		if cal := call.Common().StaticCallee(); cal != nil && cal.Signature.Recv() != nil && strings.HasPrefix(cal.Name(), "Find") && core.NamedTypeName(derefType(cal.Signature.Recv().Type())) == "Regexp" {
+			nonNil := false
+			if call.Referrers() != nil {
+				for _, r := range *call.Referrers() {
+					bo, ok := r.(*ssa.BinOp)
+					if !ok || (bo.Op != token.EQL && bo.Op != token.NEQ) || !(core.IsNilConst(bo.X) || core.IsNilConst(bo.Y)) || bo.Referrers() == nil {
+						continue
+					}
+					for _, rr := range *bo.Referrers() {
+						if iff, ok := rr.(*ssa.If); ok {
+							idx := 1
+							if bo.Op == token.NEQ {
+								idx = 0
+							}
+							if core.EdgeDominates(iff.Block(), idx, b) {
+								nonNil = true
+							}
+						}
+					}
+				}
+			}
+			if lenLowerBound(fn, base, b) >= 1 {
+				nonNil = true
+			}
+			if nonNil {
+				groups := int64(-1)
+				for x := range core.BackSlice(call.Common().Args[0]) {
+					if g, ok := x.(*ssa.Global); ok {
+						if pat := globalRegexpPattern(nil, g); pat != "" {
+							if re, err := regexp.Compile(pat); err == nil {
+								groups = int64(re.NumSubexp())
+							}
+						}
+					}
+				}
+				name := cal.Name()
+				have := int64(0)
+				switch {
+				case strings.Contains(name, "All"):
+					have = 0
+				case strings.Contains(name, "Submatch") && strings.Contains(name, "Index"):
+					if groups >= 0 {
+						have = 2 * (1 + groups)
+					} else {
+						have = 2
+					}
+				case strings.Contains(name, "Submatch"):
+					if groups >= 0 {
+						have = 1 + groups
+					} else {
+						have = 1
+					}
+				case strings.Contains(name, "Index"):
+					have = 2
+				}
+				if have >= need {
+					return fmt.Sprintf("non-nil result of (*Regexp).%s: %d elements", name, have)
+				}
+			}
+		}
+		// hash.Hash.Sum(nil): at least the digest size (16 for the smallest hash in use)
+		if call.Common().IsInvoke() && call.Common().Method.Name() == "Sum" && need <= 16 {
+			return "digest returned by hash.Hash.Sum"
+		}
+	}
+	switch t := v.(type) {
+	case *ssa.Extract:
+		if call, ok := t.Tuple.(*ssa.Call); ok && t.Index == 0 {
+			if cal := call.Common().StaticCallee(); cal != nil && cal.Name() == "Peek" && cal.Pkg != nil && cal.Pkg.Pkg.Path() == "bufio" {
+				if k, ok := core.ConstIntValue(call.Common().Args[1]); ok && k >= need {
+					for _, e := range core.ErrorResults(call) {
+						if core.DominatedByNil(e, b, true) {
+							return fmt.Sprintf("Peek(%d) returned without error: exactly %d bytes", k, k)
+						}
+					}
+				}
+			}
+		}
+	}
+	return ""
+}
+
+// lenExcludes: a comparison len(base) == k / != k dominates b on the edge where the length differs from k.
+func lenExcludes(fn *ssa.Function, base ssa.Value, b *ssa.BasicBlock, k int64) bool {
+	for _, blk := range fn.Blocks {
+		iff, ok := blk.Instrs[len(blk.Instrs)-1].(*ssa.If)
+		if !ok {
+			continue
+		}
+		bo, ok := iff.Cond.(*ssa.BinOp)
+		if !ok || (bo.Op != token.EQL && bo.Op != token.NEQ) {
+			continue
+		}
+		isLen := func(v ssa.Value) bool {
+			call, ok := v.(*ssa.Call)
+			if !ok {
+				return false
+			}
+			bi, ok := call.Common().Value.(*ssa.Builtin)
+			return ok && bi.Name() == "len" && (call.Common().Args[0] == base || sameBaseValue(call.Common().Args[0], base))
+		}
+		var kv int64
+		var isK bool
+		switch {
+		case isLen(bo.X):
+			kv, isK = core.ConstIntValue(bo.Y)
+		case isLen(bo.Y):
+			kv, isK = core.ConstIntValue(bo.X)
+		}
+		if !isK || kv != k {
+			continue
+		}
+		idx := 1
+		if bo.Op == token.NEQ {
+			idx = 0
+		}
+		if core.EdgeDominates(blk, idx, b) {
+			return true
+		}
+	}
+	return false
+}
+
+// globalLiteralLen: the length of the slice literal a package variable is initialised with (stored once, in init), or -1.
+func globalLiteralLen(g *ssa.Global) int64 {
+	stores := 0
+	n := int64(-1)
+	for _, mem := range g.Pkg.Members {
+		fn, ok := mem.(*ssa.Function)
+		if !ok {
+			continue
+		}
+		for _, b := range fn.Blocks {
+			for _, in := range b.Instrs {
+				st, ok := in.(*ssa.Store)
+				if !ok || st.Addr != ssa.Value(g) {
+					continue
+				}
+				stores++
+				if sl, ok := st.Val.(*ssa.Slice); ok {
+					if al, ok := sl.X.(*ssa.Alloc); ok {
+						if arr, ok := al.Type().(*types.Pointer).Elem().Underlying().(*types.Array); ok {
+							n = arr.Len()
+						}
+					}
+				}
+			}
+		}
+	}
+	if stores != 1 {
+		return -1
+	}
+	return n
+}
+
+// knownLen: the length of a slice value known by construction, or -1: make with a constant (or len(x)+k) length, a
+// literal, a digest, a reslicing x[a:] / x[a:b] of such a value with constant bounds.
+func knownLen(v ssa.Value, depth int) int64 {
+	if depth > 4 {
+		return -1
+	}
+	switch t := v.(type) {
+	case *ssa.MakeSlice:
+		if k, ok := core.ConstIntValue(t.Len); ok {
+			return k
+		}
+		if bo, ok := t.Len.(*ssa.BinOp); ok && bo.Op == token.ADD {
+			if k, ok := core.ConstIntValue(bo.Y); ok && k >= 0 {
+				if call, ok := bo.X.(*ssa.Call); ok {
+					if bi, ok := call.Common().Value.(*ssa.Builtin); ok && bi.Name() == "len" {
+						return k // at least k
+					}
+				}
+			}
+		}
+	case *ssa.Slice:
+		lo := int64(0)
+		if t.Low != nil {
+			k, ok := core.ConstIntValue(t.Low)
+			if !ok {
+				return -1
+			}
+			lo = k
+		}
+		if t.High != nil {
+			if k, ok := core.ConstIntValue(t.High); ok {
+				return k - lo
+			}
+			return -1
+		}
+		if al, ok := t.X.(*ssa.Alloc); ok {
+			if arr, ok := al.Type().(*types.Pointer).Elem().Underlying().(*types.Array); ok {
+				return arr.Len() - lo
+			}
+		}
+		if n := knownLen(t.X, depth+1); n >= 0 {
+			return n - lo
+		}
+	case *ssa.Phi:
+		best := int64(-1)
+		for i, e := range t.Edges {
+			n := knownLen(e, depth+1)
+			if n < 0 {
+				return -1
+			}
+			if i == 0 || n < best {
+				best = n
+			}
+		}
+		return best
+	}
+	return -1
+}
+
+func ssaFuncsOfPkg(fn *ssa.Function) []*ssa.Function {
+	var out []*ssa.Function
+	if fn.Pkg == nil {
+		return nil
+	}
+	for _, mem := range fn.Pkg.Members {
+		switch m := mem.(type) {
+		case *ssa.Function:
+			out = append(out, m)
+			out = append(out, m.AnonFuncs...)
+		case *ssa.Type:
+			for _, t := range []types.Type{m.Type(), types.NewPointer(m.Type())} {
+				ms := fn.Prog.MethodSets.MethodSet(t)
+				for i := 0; i < ms.Len(); i++ {
+					if f := fn.Prog.MethodValue(ms.At(i)); f != nil && f.Pkg == fn.Pkg {
+						out = append(out, f)
+					}
+				}
+			}
+		}
+	}
+	return out
 }
